@@ -61,16 +61,28 @@ def run(tier, seed, replay):
                            "h": [{"op": kind}], "s": {"maddr": 0, "ir": 2, "prw": -1, "wait": False, "lbr": 0, "st": "Running"}})
         rcases.append({"pre": [{"op": "restore", "state": {"maddr": (irv * 2 + 1) % 512, "ir": irv}}],
                        "h": [{"op": "load", "image": [2, 2, 1], "ss": 16, "ps": -1}], "s": {"maddr": 0, "ir": 2, "st": "Running"}})
+    # the keys that are not resets never move the sequencer: continue / interrupt key while Running, at every micro address, with and without a pending wait
+    for ma in range(512):
+        for w in (False, True):
+            for kind in ("continue", "key_int"):
+                rcases.append({"pre": [{"op": "restore", "state": {"maddr": ma, "ir": ma % 256, "wait": w, "micr": 1}}],
+                               "h": [{"op": kind}], "s": {"maddr": ma, "ir": ma % 256, "wait": w, "st": "Running"}})
     rres = vlib.replay_cases(rcases, "c09-reset")
     if rres["mismatches"]:
         f = rres["first"][0]
-        v.violation("ctl:reset", "after %s with IR=%s in flight the sequencer is not in the reset control state (micro address 0, IR 0x02): %s"
+        v.violation("ctl:reset", "after %s with IR=%s in flight the sequencer is not in the control state the specification prescribes (resets: micro address 0, IR 0x02; continue / interrupt key: unchanged): %s"
                     % (f["case"]["h"][0]["op"], f["case"]["pre"][0]["state"]["ir"], f["diff"][:3]), f)
     # (3) the data-driven loops terminate: all operand pairs on the real machine
     md = vlib.vh_json(["muldiv-term"])
     for e in md:
         if e["nonterminating"]:
             v.violation("ctl:loop:" + e["op"], "%s does not terminate / does not reach STOP: %s" % (e["op"], json.dumps(e["nonterminating"][:3])), e)
+    # ... also when the instruction is run as ONE assembly-mode step (the other public way to clock the sequencer), with and without a key interrupt
+    from checks import c11
+    from checks import isa_common as ic
+    ltr = [vlib.run_scenario(c11.long_instruction_trace(), "c09-long")[0]]
+    lres = vlib.validate_traces(ltr, cfg="TraceMachine")
+    ic.report_trace_results(v, ltr, lres, "ctl:asmstep", "assembly-step over MUL / DIV")
     cov = {
         "states": r.distinct + t.distinct, "transitions": r.generated + t.generated,
         "traces_validated_against_impl": d["rows"] + n["rows"] + ir["rows"],
